@@ -14,10 +14,8 @@ func init() {
 }
 
 func kernelsC13(thorough bool) ([]string, []layera.Kernel) {
+	// (identifier lengths go up to 130 bytes: three path elements would be 8 million paths, two are 40 000)
 	maxPaths := 2
-	if thorough {
-		maxPaths = 3
-	}
 	stub := []string{"github.com/jmattheis/goverter/method.Parse", "(*github.com/jmattheis/goverter/pkgload.PackageLoader).GetOne", "(*github.com/jmattheis/goverter/pkgload.PackageLoader).GetMatching"}
 	return []string{"xtype", "builder", "pkgload", "config", "enum", "namer", "comments"}, []layera.Kernel{
 		{Name: "K7.specgroup", Pkg: "comments", Harness: "VerifHarness_C19_Group", Unwind: 64},
@@ -26,7 +24,7 @@ func kernelsC13(thorough bool) ([]string, []layera.Kernel) {
 		{Name: "K9.recursivetypes", Pkg: "xtype", Harness: "VerifHarness_C13_RecursiveTypes", Unwind: 64, MaxDepth: 200, LoopsBounded: true},
 		{Name: "K9.enumlookup", Pkg: "xtype", Harness: "VerifHarness_C13_EnumLookup", Unwind: 16},
 		{Name: "K5.structassign", Pkg: "builder", Harness: "VerifHarness_C05_StructAssign", Unwind: 32, MaxPaths: 3000000, Workers: 16},
-		{Name: "K9.tostring", Pkg: "builder", Harness: "VerifHarness_C13_ErrorToString", Unwind: 24, MaxPaths: 600000, SetInts: map[string]int{"VerifC13MaxPaths": maxPaths}},
+		{Name: "K9.tostring", Pkg: "builder", Harness: "VerifHarness_C13_ErrorToString", Unwind: 600, MaxPaths: 600000, SetInts: map[string]int{"VerifC13MaxPaths": maxPaths}},
 		{Name: "K9.methodstring", Pkg: "pkgload", Harness: "VerifHarness_C13_ParseMethodString", Unwind: 24},
 		{Name: "K9.getmatching", Pkg: "pkgload", Harness: "VerifHarness_C13_GetMatching", Unwind: 64, Stub: []string{"github.com/jmattheis/goverter/method.Parse"}, E2E: "c13"},
 		{Name: "K9.methodmap", Pkg: "config", Harness: "VerifHarness_C13_ParseMethodMap", Unwind: 24, Stub: stub},
